@@ -190,7 +190,14 @@ def replay(inp: Any) -> Case:
 
 def known_match(finding: Any, case: Case) -> bool:
     if finding.get("matches") == "below_tenth_three_places":
-        x = coqio.num_unjson(case.input)
+        if isinstance(case.input, dict) and "text" in case.input:
+            return False
+        shown_text = case.impl
+        if isinstance(case.input, dict) and "kind" in case.input:
+            x = coqio.num_unjson(case.input["true"])
+            shown_text = case.input["shown"]
+        else:
+            x = coqio.num_unjson(case.input)
         if isinstance(x, int):
             return False
         v = Fraction(float(x)) if isinstance(x, Fraction) else Fraction(x)
@@ -200,11 +207,11 @@ def known_match(finding: Any, case: Case) -> bool:
             return False
         # the known behaviour: correctly rounded to three decimal PLACES
         try:
-            shown = Fraction(case.impl)
+            shown = Fraction(shown_text)
         except Exception:
             return False
         return shown % Fraction(1, 1000) == 0 and abs(shown - v) <= Fraction(1, 2000) \
-            and re.fullmatch(r"[0-9]+(\.[0-9]*[1-9])?", case.impl) is not None
+            and re.fullmatch(r"[0-9]+(\.[0-9]*[1-9])?", shown_text) is not None
     return False
 
 
@@ -249,7 +256,48 @@ def gen_values(rng: random.Random, n: int) -> List[Any]:
     return vals
 
 
+# ---------------------------------------------------------------- numbers as shown inside rendered HTML
+
+def _shown_number(html_text: str) -> str:
+    """The number text at the start of a rendered quantity / proportion (tags removed, &frasl; -> '/')."""
+    import html as H
+    txt = re.sub(r"<ul.*?</ul>", "", html_text, flags=re.S)
+    txt = H.unescape(re.sub(r"<[^>]*>", "", txt)).replace("\u2044", "/")
+    m = re.match(r"(?:\d+ )?\d+/\d+|\d+(?:\.\d+)?", txt)
+    return m.group(0) if m else txt
+
+
+def make_shown_case(kind: str, v: Any, extra: Any) -> Case:
+    import recipe_grid.recipe as R
+    from recipe_grid.renderer import html as RH
+    from .. import ser
+    if kind == "prop":
+        pc, prep = extra
+        obj = R.Proportion(v, pc, None, prep)
+        out = RH.render_proportion(obj)
+        true = v * 100 if pc else v
+        coq_in = ser.proportion(obj)
+    else:
+        unit, sp, prep = extra
+        obj = R.Quantity(v, unit, sp, prep)
+        out = RH.render_quantity(obj)
+        true = v
+        coq_in = ser.quantity(obj)
+    shown = _shown_number(out)
+    viol = oracle(true, shown)
+    if viol:
+        viol = f"{kind} {v!r} rendered as {out!r}: " + viol
+    c = Case(input={"kind": kind, "v": coqio.num_json(v), "extra": extra, "true": coqio.num_json(true), "shown": shown}, coq_in=coq_in,
+             coq_out=f"(Units.Ok {coqio.string(out)})", impl=out, violation=viol, nontrivial=True,
+             tags=["shown-" + kind, type(v).__name__])
+    return c
+
+
 def suites(tier: str, seed: int) -> List[Suite]:
+    sh_p = Suite(name="shownprop", imports=["From RG Require Import Model.Recipe Model.Units Model.Html Model.HtmlChecks."],
+                 in_ty="proportion", out_ty="Units.res str", check="check_render_proportion", show="render_proportion")
+    sh_q = Suite(name="shownqty", imports=["From RG Require Import Model.Recipe Model.Units Model.Html Model.HtmlChecks."],
+                 in_ty="quantity", out_ty="Units.res str", check="check_render_quantity'", show="render_quantity")
     su = Suite(
         name="numfmt",
         imports=["From RG Require Import Model.NumFmt."],
@@ -261,7 +309,7 @@ def suites(tier: str, seed: int) -> List[Suite]:
         in_ty="str", out_ty="(option num)", check="check_parse", show="parse_number",
     )
     if tier == "replay":
-        return [su, sp]
+        return [su, sp, sh_p, sh_q]
     rng = random.Random(seed * 7919 + 11)
     n = 3000 if tier == "quick" else 60000
     seen = set()
@@ -288,4 +336,21 @@ def suites(tier: str, seed: int) -> List[Suite]:
         texts.setdefault(tx, "hand")
     for tx, tag in texts.items():
         sp.cases.append(make_parse_case(tx, tag))
-    return [su, sp]
+    # numbers as they are shown inside rendered proportions / quantities (renderer/html.py)
+    rng2 = random.Random(seed * 31 + 5)
+    vals = [v for v in gen_values(rng2, 600 if tier == "quick" else 6000) if v < 10 ** 12]
+    for v in vals:
+        pc = rng2.random() < 0.5
+        pv = v
+        if pc and isinstance(v, int):
+            pv = v / 100
+        elif pc:
+            pv = v / 100
+        try:
+            sh_p.cases.append(make_shown_case("prop", pv, [pc, rng2.choice(["% of the", " of", " *", "%"])]))
+            sh_q.cases.append(make_shown_case("qty", v, [rng2.choice([None, "sprigs", "Handful"]), rng2.choice(["", " "]), rng2.choice(["", " of"])]))
+        except OverflowError:
+            pass
+    for fr in (Fraction(1, 3), Fraction(1, 6), Fraction(1, 800), Fraction(1, 8), Fraction(2, 3), Fraction(1, 7), Fraction(5, 12)):
+        sh_p.cases.append(make_shown_case("prop", fr, [True, "% of the"]))
+    return [su, sp, sh_p, sh_q]
